@@ -9,6 +9,7 @@ R17.2 TokenStream::read_tokens: the scanner mode is read *before* the token (sam
 R17.3 who_may_call(UserActionsTrait::on_comment): only the two handle_additional_tokens; each call is
       control dependent on is_comment_token() (and `?` plumbing) only - in particular not on
       trim_parse_tree - and receives elements of take_skip_tokens().
+R17.5 LR: skipped tokens are flushed before every table action, independent of the trim option.
 R17.4 the built-in skip classification is a range test on the runtime's token constants (no arithmetic / bit tests on the
       token type).
 """
@@ -154,6 +155,7 @@ def check(ctx):
                   "delivered once)", "handle_additional_tokens does not draw its tokens from exactly one "
                   "take_skip_tokens() call (found %d)" % len(ts), where(root))
     skip_predicate_is_a_range_test(ctx, facts)
+    lr_flush_before_every_action(ctx, facts)
 
 
 def _loop_cond(body, x, nx):
@@ -229,3 +231,46 @@ def skip_predicate_is_a_range_test(ctx, facts):
               "Token::is_skip_token computes with the token type (%s) instead of comparing it with the token constants: user "
               "terminal numbers are unbounded, a test that wraps or masks the number treats some user terminal (e.g. number 65) "
               "as a built-in skip token - it never reaches the parser and ends up in the tree as a stray leaf" % bad, where(b))
+
+
+def lr_flush_before_every_action(ctx, facts):
+    """R17.5 (added after seed C17-c) LR: the skipped tokens in front of the look-ahead token are handed over (comments to on_comment,
+    tokens to the tree) in every iteration *before* the table action is chosen: a call of handle_additional_tokens dominates the
+    match on the action and does not depend on the trim option.  End of input is never shifted - the parse ends with Accept - so a
+    flush that only happens in the Shift arm leaves the comments behind the last token to the flush after the loop, which is
+    skipped in trim mode: those comments are never delivered."""
+    from .. import cfg
+    from .common import guards_on_all_paths
+    LRP = "parol_runtime::lr_parser::parser_types::LRParser::"
+    pi = facts.body(LRP + "parse_into")
+    fl = [c for c in pi.calls() if c.path == LRP + "handle_additional_tokens"]
+    # the match on the action: a switch on the discriminant of an LRAction value
+    sw = None
+    for d in range(len(pi.blocks)):
+        t = pi.term(d)
+        if t[0] != "switch":
+            continue
+        for s in pi.stmts(d):
+            if s[0] == "a" and s[2][0] == "disc" and t[1][0] in ("c", "m") and t[1][1] == s[1] and \
+                    "LRAction" in pi.local_ty(s[2][1][0]):
+                sw = d
+    if sw is None or not fl:
+        raise AnchorMissing("LRParser::parse_into: match on LRAction / handle_additional_tokens not found")
+    dom = cfg.Dom(pi)
+    loop = cfg.loop_containing(pi, sw, innermost=True)
+    good = []
+    for c in fl:
+        if not dom.dominates(c.bb, sw) or (loop and c.bb not in loop[1]):
+            continue
+        trim_dep = False
+        for a, k, truth in guards_on_all_paths(pi, c.bb):
+            if k and k[0] == "field" and any("trim_parse_tree" in str(x) for x in k[2]):
+                trim_dep = True
+        if not trim_dep:
+            good.append(c)
+    ctx.check(bool(good), "R17.5", "LRParser::parse_into|flush-before-every-action",
+              "handle_additional_tokens runs in every iteration before the action is chosen, independent of trim mode",
+              "LRParser::parse_into does not flush the skipped tokens before every table action (calls at lines %s): tokens in front "
+              "of the end of input are only flushed by the call behind the loop, which is conditional on !trim_parse_tree - with "
+              "trim_parse_tree() the comments behind the last token never reach on_comment" % [c.line for c in fl],
+              where(pi, fl[0].line))
